@@ -84,6 +84,17 @@ def gen_card(rs):
         if rs.chance(0.3):
             # a weak decay at the top: parity is not conserved there
             card["decay"]["A"] = [d + [{"p_break": True}] for d in card["decay"]["A"]]
+    if kind in ("S3", "V3") and rs.chance(0.5):
+        # constraints declared in the card: floating mass with a range, fixed chain, Gaussian constraint
+        res = [k for k, v in card["particle"].items() if isinstance(v, dict) and k.startswith(("R_", "X")) and "mass" in v]
+        if res:
+            r = rs.choice(res)
+            card["particle"][r]["float"] = rs.choice(["m", "mg", "g"])
+            card["particle"][r]["params"] = {"mass_min": round(card["particle"][r]["mass"] - 0.2, 3), "mass_max": round(card["particle"][r]["mass"] + 0.2, 3)}
+            if rs.chance(0.4) and "m" in card["particle"][r]["float"]:
+                card["particle"][r]["gauss_constr"] = {"m": 0.05}
+        card["constrains"] = {"decay": {"fix_chain_idx": 0, "fix_chain_val": 1.0}}
+        card["_tie"] = rs.chance(0.4)
     return card
 
 
@@ -276,6 +287,7 @@ def observe(cfg):
         "fixed": sorted(n for n in vm.variables if n not in vm.trainable_vars),
         "ties": sorted(sorted(str(x) for x in l) for l in vm.same_list),
         "bounds": sorted((k, list(v)) for k, v in cfg.bound_dic.items()),
+        "gauss": gauss(cfg),
     }
     return obs
 
@@ -292,6 +304,10 @@ def build(card, share=None):
     return cfg
 
 
+def gauss(cfg):
+    return sorted((k, [float(x) for x in v]) for k, v in getattr(cfg, "gauss_constr_dic", {}).items())
+
+
 class Failure(Exception):
     pass
 
@@ -304,6 +320,17 @@ def execute(spec):
 
     log = Log(seed=spec.get("data_seed"), prop="C19")
     card = spec["card"]
+    if card.get("_tie"):
+        # a tie between two free magnitudes, declared in the card (names resolved from a preliminary load)
+        try:
+            pre = build(card)
+            vm0 = pre.get_amplitude().vm
+            mags = sorted(n for n in vm0.trainable_vars if n.endswith("_total_0r"))
+            if len(mags) >= 2:
+                card = copy.deepcopy(card)
+                card.setdefault("constrains", {})["var_equal"] = [[mags[0], mags[1]]]
+        except Exception:
+            pass
     base_obs = None
     base_cfg = None
     nloads = 0
@@ -376,7 +403,7 @@ def execute(spec):
                     cfg2 = build(c2, share)
                     o2 = observe(cfg2)
                     between += 1
-                    for field in ("qn", "ls", "bounds"):
+                    for field in ("qn", "ls", "bounds", "gauss", "ties"):
                         if o2[field] != base_obs[field]:
                             log.fail("variant-equivalent", "variant|%s|%s" % (v, field), "the %s form of the card differs from the plain form in %s" % (v, field), step=i)
                             raise Failure()
@@ -467,9 +494,22 @@ def execute(spec):
 
                     between += 1
                     c0 = {kk: vv for kk, vv in copy.deepcopy(card).items() if not kk.startswith("_")}
+                    # dry run on a throw-away loader: number of line events of a first build
+                    with rng_seam(4242):
+                        dry = ConfigLoader(copy.deepcopy(c0))
+                    cnt = LineTracer()
+                    with cnt:
+                        with rng_seam(4242):
+                            dry.get_amplitude()
+                    import sys as _sys
+
+                    _sys.settrace(None)
+                    frac = (st["pos"] % 100) / 100.0
+                    if st["pos"] % 3 == 0:
+                        frac = 0.9 + 0.1 * frac  # the constraint phase is at the end of the build
                     with rng_seam(4242):
                         cfgr = ConfigLoader(c0)
-                    tr = LineTracer(fire_at=st["pos"] * 25, exc_type=InjectedFault)
+                    tr = LineTracer(fire_at=max(1, int(frac * cnt.n)), exc_type=InjectedFault)
                     fired = False
                     try:
                         with tr:
@@ -494,9 +534,14 @@ def execute(spec):
                                 raise
                             log.count("probe.retry_after_failed_build_raised_again")
                             o4 = None
-                        if o4 is not None and o4 != base_obs:
-                            diff = [kk for kk in o4 if o4[kk] != base_obs[kk]]
-                            log.fail("same-card-same-model", "retry-after-failed-build|%s" % "+".join(diff), "after an exception during the first get_amplitude() of a loader, asking the same loader again delivers a model that differs from a clean load in %s: %s vs %s" % (diff, json.dumps(o4[diff[0]])[:200], json.dumps(base_obs[diff[0]])[:200]), step=i)
+                        if o4 is not None:
+                            # the ORDER of the free parameters may depend on what the interrupted attempt had already
+                            # freed; names, fixed set and constraints may not
+                            o4 = dict(o4, trainable=sorted(o4["trainable"]))
+                            ref4 = dict(base_obs, trainable=sorted(base_obs["trainable"]))
+                        if o4 is not None and o4 != ref4:
+                            diff = [kk for kk in o4 if o4[kk] != ref4[kk]]
+                            log.fail("same-card-same-model", "retry-after-failed-build|%s" % "+".join(diff), "after an exception during the first get_amplitude() of a loader, asking the same loader again delivers a model that differs from a clean load in %s: %s vs %s" % (diff, json.dumps(o4[diff[0]])[:300], json.dumps(ref4[diff[0]])[:300]), step=i)
                             raise Failure()
                 elif k == "stale_file" and base_obs is not None:
                     # a parameter file left over from an earlier version of the card (other fixed masses/widths)
